@@ -72,7 +72,8 @@ def _hash_tree(h, root, exts):
         for f in sorted(fn):
             if f.endswith(exts):
                 p = os.path.join(dp, f)
-                h.update(p.encode())
+                # relative names: a snapshot of /verif elsewhere on disk with the same content shares the build
+                h.update(os.path.relpath(p, root).encode())
                 with open(p, "rb") as fh:
                     h.update(fh.read())
 
@@ -86,7 +87,7 @@ def source_key(flavor):
         h.update(fh.read())
     _hash_tree(h, os.path.join(VERIF, "harness"), (".cc", ".h", ".c"))
     f = FLAVORS[flavor]
-    h.update((f["cxx"] + f["flags"] + f["ld"] + COMMON + LIBS).encode())
+    h.update((f["cxx"] + f["flags"] + f["ld"] + COMMON + LIBS + REPO).encode())
     return h.hexdigest()[:20]
 
 
@@ -149,11 +150,23 @@ def get_build(flavor, quiet=False):
         key = source_key(flavor)
         bdir = os.path.join(WORK, "build", "%s-%s" % (flavor, key))
         if os.path.exists(os.path.join(bdir, "DONE")):
+            os.utime(os.path.join(bdir, "DONE"))
             return bdir
-        # drop stale builds of this flavor
+        # drop stale builds of this flavor: keep the 2 most recently used others (a background run from a
+        # snapshot of /verif, or a scratch /repo, may be using them) unless they were not used for 3 hours
+        others = []
         for d in os.listdir(os.path.join(WORK, "build")):
             if d.startswith(flavor + "-") and d != os.path.basename(bdir):
-                shutil.rmtree(os.path.join(WORK, "build", d), ignore_errors=True)
+                dp = os.path.join(WORK, "build", d)
+                try:
+                    others.append((os.path.getmtime(os.path.join(dp, "DONE")), dp))
+                except OSError:
+                    if time.time() - os.path.getmtime(dp) > 1800:
+                        shutil.rmtree(dp, ignore_errors=True)   # an abandoned partial build
+        others.sort(reverse=True)
+        for k, (mt, dp) in enumerate(others):
+            if k >= 2 or time.time() - mt > 3 * 3600:
+                shutil.rmtree(dp, ignore_errors=True)
         shutil.rmtree(bdir, ignore_errors=True)
         os.makedirs(os.path.join(bdir, "lib"))
         os.makedirs(os.path.join(bdir, "bin"))
